@@ -229,6 +229,10 @@ func (v *value) Import(val interface{}) error {
 		v.raw = value.Raw()
 		v.typ = value.GetRawType()
 
+		if r, isRow := val.(Row); isRow {
+			v.raw = r
+		}
+
 		return nil
 	}
 
